@@ -88,6 +88,9 @@ func init() {
 	})
 	regV("(*encoding/json.Decoder).Decode", func(m *Machine, g *Goroutine, a []Value) Value {
 		d := m.nativeOf(a[0], "json.Decode").(*jsonDecoder)
+		if m.race.on {
+			m.raceObj(a[0].(PtrVal).obj, nil, true) // a json.Decoder is not safe for concurrent use
+		}
 		s := streamOf(d.r)
 		if s == nil {
 			panic(abortf("json.Decoder on a reader that is not a verifapi stream: %s", describe(d.r)))
